@@ -52,7 +52,6 @@ Qed.
 Record BInv (s : snapshot) (P : vol -> bool) (st : bstate) : Prop := {
   bi_w : WInv s (b_w st);
   bi_n : NodesOk (b_w st);
-  bi_z : ZeroRule (b_w st);
   bi_sel : forall n v, In v (b_sel st n) ->
            In {| r_loc := loc_of s n; r_info := v |} (w_reps (b_w st) (v_id v));
   bi_nd : forall n, NoDup (map v_id (b_sel st n));
@@ -99,11 +98,11 @@ Proof.
   assert (loc_of s from = fst f) as Efl by (rewrite <- Hfid; apply loc_of_cl; auto).
   assert (loc_of s to = fst t) as Etl by (rewrite <- Htid; apply loc_of_cl; auto).
   unfold bmovable, movable in Hmov. apply andb_true_iff in Hmov. destruct Hmov as [Hg Hnsel].
-  destruct HI as [HW HN HZ Hsel Hnds HP Hsrc Hrest].
+  destruct HI as [HW HN Hsel Hnds HP Hsrc Hrest].
   pose proof (Hsel from v Hv) as Hin.
-  destruct (move_step_safe s (b_w st) dt from to v Hnd HW HN HZ) as [Hc [Hp [HW' [HN' [HZ' [Hmoved [Hkeep Hoth]]]]]]]; auto.
+  destruct (move_step_safe s (b_w st) dt from to v Hnd HW HN) as [Hc [Hp [HW' [HN' [Hmoved [Hkeep Hoth]]]]]]; auto.
   { rewrite Etl. apply Hctx; auto. }
-  { intros Hrp. rewrite Hrp in Hg. rewrite Efl, Etl. exact Hg. }
+  { unfold move_guard. rewrite Efl, Etl. exact Hg. }
   rewrite Hvid in *.
   split; [exact Hc|]. split.
   { intros Htr. apply Hp. destruct (Hsrc from v Hv) as [n0 [Hn0 Hv0]]. eapply no_rp_trig; eauto. }
